@@ -33,7 +33,8 @@ type Case struct {
 	SlowClose  int    `json:"slowclose,omitempty"`  // abaco: closing the devices takes this many ms
 	BreakState bool   `json:"breakstate,omitempty"` // while writing: the experiment-state file's descriptor is closed underneath (the STOP label cannot be written)
 	// a history of calls through the RPC entry points instead of a life-cycle trace:
-	// "start:triangle" "start:simpulse" "start:erroring" "selfend" (wait until the running source has ended by itself) "stop"
+	// "start:triangle" "start:simpulse" "start:erroring" "start:lancero" "start:lancero-ar" (configured to auto-restart)
+	// "selfend" (wait until the running source has ended by itself) "req" (a queued request with valid arguments) "stop"
 	Rpc []string `json:"rpc,omitempty"`
 }
 
@@ -50,7 +51,7 @@ var coqPoint = map[string]string{
 }
 var coqKind = map[string]string{"triangle": "KSim", "simpulse": "KSim", "erroring": "KErr", "abaco": "KAbaco",
 	"abacoudp": "KAbaco", "lancero": "KLancero"}
-var coqFault = map[string]string{"none": "FNone", "sample": "FSample", "samplelate": "FSampleLate",
+var coqFault = map[string]string{"none": "FNone", "sample": "FSample", "samplesilent": "FSample", "sampleread": "FSample", "samplelate": "FSampleLate",
 	"prepare": "FPrepare", "runearly": "FRunEarly", "runlate": "FRunLate"}
 var coqState = map[dastard.SourceState]string{dastard.Inactive: "Inactive", dastard.Starting: "Starting",
 	dastard.Active: "Active", dastard.Stopping: "Stopping"}
@@ -364,6 +365,21 @@ func runRpc(c Case, limit time.Duration) rpcOutcome {
 	var okb bool
 	sc.ConfigureTriangleSource(&dastard.TriangleSourceConfig{Nchan: 2, SampleRate: 10000, Min: 100, Max: 110}, &okb)
 	sc.ConfigureSimPulseSource(&dastard.SimPulseSourceConfig{Nchan: 2, SampleRate: 10000, Pedestal: 1000, Amplitudes: []float64{5000}, Nsamp: 20}, &okb)
+	card := drv.NewCard(2, 1, "")
+	ls := dastard.VerifC10NewLancero(card, 2)
+	sc.VerifSetLancero(ls)
+	waitSelfEnd := func() bool {
+		if a := sc.VerifActiveAny(); a != nil && sc.VerifActiveKind() == "erroring" && sc.VerifIsSourceActive() {
+			done := make(chan struct{})
+			go func() { a.RunDoneWait(); close(done) }()
+			select {
+			case <-done:
+			case <-time.After(limit):
+				return false
+			}
+		}
+		return true
+	}
 	call := func(f func() error) (string, bool) {
 		done := make(chan error, 1)
 		go func() { done <- f() }()
@@ -382,15 +398,29 @@ func runRpc(c Case, limit time.Duration) rpcOutcome {
 		ok := true
 		switch {
 		case strings.HasPrefix(o, "start:"):
-			name := map[string]string{"triangle": "TRIANGLESOURCE", "simpulse": "SIMPULSESOURCE", "erroring": "ERRORINGSOURCE"}[o[6:]]
+			name := map[string]string{"triangle": "TRIANGLESOURCE", "simpulse": "SIMPULSESOURCE", "erroring": "ERRORINGSOURCE",
+				"lancero": "LANCEROSOURCE", "lancero-ar": "LANCEROSOURCE"}[o[6:]]
+			if !sc.VerifIsSourceActive() {
+				ls.VerifC10SetAutoRestart(o == "start:lancero-ar")
+			}
 			cls, ok = call(func() error { return sc.Start(&name, &okb) })
+		case o == "req":
+			// a source of a self-ending kind is given the time to end first, so that the answer does not depend on timing
+			if !waitSelfEnd() {
+				ok = false
+				break
+			}
+			cls, ok = call(func() error {
+				st := &dastard.FullTriggerState{ChannelIndices: []int{0}}
+				return sc.ConfigureTriggers(st, &okb)
+			})
 		case o == "stop":
 			d := ""
 			cls, ok = call(func() error { return sc.Stop(&d, &okb) })
 		case o == "selfend":
 			// only a source of a self-ending kind ends; wait until its run is over (the server is not told)
-			if a := sc.VerifActiveAny(); a != nil && sc.VerifActiveKind() == "erroring" {
-				_, ok = call(func() error { a.RunDoneWait(); return nil })
+			if !waitSelfEnd() {
+				out.Hung = true
 			}
 			continue
 		default:
@@ -429,6 +459,10 @@ func renderRpc(c Case, out rpcOutcome, crashed bool) string {
 			ops = append(ops, "RStart RSimPulse")
 		case "start:erroring":
 			ops = append(ops, "RStart RErroring")
+		case "start:lancero", "start:lancero-ar":
+			ops = append(ops, "RStart RLancero")
+		case "req":
+			ops = append(ops, "RReq")
 		case "selfend":
 			ops = append(ops, "RSelfEnd")
 		case "stop":
@@ -606,7 +640,7 @@ func render(c Case, out outcome, crashed bool) string {
 var faultsOf = map[string][]string{
 	"triangle": {"none", "prepare"}, "simpulse": {"none", "prepare"}, "erroring": {"none"},
 	"abaco": {"none", "sample", "samplelate", "prepare"}, "abacoudp": {"prepare"},
-	"lancero": {"none", "sample", "runearly", "runlate"},
+	"lancero": {"none", "sample", "samplesilent", "sampleread", "runearly", "runlate"},
 }
 
 func gen(seed uint64, tier string) []interface{} {
@@ -640,6 +674,10 @@ func gen(seed uint64, tier string) []interface{} {
 		{"start:triangle", "stop", "stop", "start:triangle", "stop"},
 		{"start:triangle", "start:simpulse", "stop", "start:simpulse", "stop", "start:erroring", "selfend", "stop"},
 		{"stop", "start:simpulse", "selfend", "stop", "start:erroring", "selfend", "start:triangle", "stop", "start:triangle"},
+		{"start:lancero", "req", "stop", "start:lancero", "req", "req", "stop"}, // a hardware-type source serves requests, then stops
+		{"start:lancero-ar", "stop", "start:triangle", "stop"},                  // configured to auto-restart: an operator Stop still stops it
+		{"start:lancero-ar", "req", "stop", "stop", "req", "start:lancero-ar", "stop"},
+		{"start:erroring", "req", "stop", "start:triangle", "req", "stop", "req"},
 	} {
 		add(Case{Rpc: h})
 	}
@@ -719,6 +757,8 @@ func gen(seed uint64, tier string) []interface{} {
 				h = append(h, "start:simpulse")
 			case x < 5:
 				h = append(h, "start:erroring")
+			case x < 6:
+				h = append(h, []string{"start:lancero", "start:lancero-ar", "req", "req"}[q.Intn(4)])
 			case x < 7:
 				h = append(h, "selfend")
 			default:
